@@ -277,8 +277,16 @@ def c20_3(ctx):
     ok = adds == {'self._instruction_mnemonics': 'mnemonic', 'self._macro_mnemonics': 'macro.mnemonic'}
     ctx.check(ok, 'source:model:sets-filled', iset.site(), 'instruction names go to the instruction set, macro names to the macro set', str(adds))
     pl = ctx.repo.func(m + 'predefined_labels')
-    srcs = sorted([unparse(l.iter) for l in walk_no_nested(pl.node) if isinstance(l, ast.For)]
-                  + [unparse(g_.iter) for c_ in ast.walk(pl.node) if isinstance(c_, (ast.ListComp, ast.GeneratorExp)) for g_ in c_.generators])
+    iters = [(l.target, l.iter) for l in walk_no_nested(pl.node) if isinstance(l, ast.For)] \
+        + [(g_.target, g_.iter) for c_ in ast.walk(pl.node) if isinstance(c_, (ast.ListComp, ast.GeneratorExp)) for g_ in c_.generators]
+    # `for source in (a, b, c): for item in source` reads a, b and c
+    groups = {unparse(t): [unparse(e) for e in it.elts] for t, it in iters if isinstance(it, (ast.Tuple, ast.List)) and isinstance(t, ast.Name)}
+    srcs = []
+    for t, it in iters:
+        if isinstance(it, (ast.Tuple, ast.List)) and isinstance(t, ast.Name) and any(unparse(i2) == t.id for _, i2 in iters):
+            continue
+        srcs.extend(groups.get(unparse(it), [unparse(it)]))
+    srcs = sorted(srcs)
     ctx.check(srcs == ['self.predefined_constants', 'self.predefined_data_blocks', 'self.predefined_memory_zones'], 'source:model:predefined-labels', pl.site(),
               'predefined names are the predefined constants, data blocks and memory zones', str(srcs))
 
